@@ -23,7 +23,7 @@ def grid(scheme, tier_="quick"):
         c.update(kw)
         return c
     if scheme == "CJJ14.PiBas":
-        g = [v(), v(param_lambda=16, prf_f_output_length=16), v(param_lambda=24, prf_f_output_length=24), v(param_identifier_size=3)]
+        g = [v(), v(param_lambda=16, prf_f_output_length=16, param_identifier_size=16), v(param_lambda=24, prf_f_output_length=24), v(param_identifier_size=3)]
     elif scheme == "CJJ14.PiPack":
         g = [v(param_B=2), v(param_B=1), v(param_B=3, param_identifier_size=4), v()]
     elif scheme == "CJJ14.PiPtr":
@@ -35,16 +35,18 @@ def grid(scheme, tier_="quick"):
              v(param_B=4, param_b=2, param_B_prime=4, param_b_prime=2, param_identifier_size=4),
              v()]
     elif scheme == "CGKO06.SSE1":
+        # third entry: identifier + key + address = 7 + 24 + 1 = 32 bytes, a node that fills whole cipher blocks
         g = [v(param_s=16, param_dictionary_size=8), v(param_s=8, param_dictionary_size=4, param_identifier_size=4),
+             v(param_s=64, param_dictionary_size=16, param_identifier_size=7),
              v(param_s=64, param_dictionary_size=16, param_k=16), v(param_s=32, param_dictionary_size=8, param_k=32, param_l=16)]
     elif scheme == "CGKO06.SSE2":
         g = [v(param_dictionary_size=16), v(param_dictionary_size=16, param_identifier_size=4, param_k=16), v(param_l=16, param_k=32)]
     elif scheme == "CT14.Pi":
-        g = [v(), v(param_identifier_size=8), v(param_k=16, param_k_prime=16), v(param_identifier_size=16, param_l=16)]
+        g = [v(), v(param_identifier_size=16, param_l=16), v(param_k=16, param_k_prime=16), v(param_identifier_size=8)]
     elif scheme == "ANSS16.Scheme3":
         g = [v(), v(param_identifier_size=8), v(param_identifier_size=16, param_l=16, param_l_prime=16)]
     elif scheme == "DP17.Pi":
-        g = [v(), v(param_L=2), v(param_actual_storage_level_ratio=0.5), v(param_actual_storage_level_ratio=1, param_L=2),
+        g = [v(), v(param_L=2, param_identifier_size=16), v(param_actual_storage_level_ratio=0.5), v(param_actual_storage_level_ratio=1, param_L=2),
              v(param_lambda=16, param_identifier_size=4), v(param_L=3, param_actual_storage_level_ratio=0.5)]
     else:
         raise ValueError(scheme)
